@@ -14,6 +14,8 @@ import (
 	"net"
 	"net/http"
 	"net/url"
+	"runtime"
+	"strconv"
 	"strings"
 	"sync"
 
@@ -37,9 +39,10 @@ type capture struct {
 	mu   sync.Mutex
 	recs []rec
 	done *bool
+	min  slog.Level // records below this level are disabled (as a production handler configured at WARN would)
 }
 
-func (c *capture) Enabled(context.Context, slog.Level) bool { return true }
+func (c *capture) Enabled(_ context.Context, l slog.Level) bool { return l >= c.min }
 func (c *capture) Handle(_ context.Context, r slog.Record) error {
 	x := rec{level: r.Level, msg: r.Message, attrs: map[string]string{}}
 	r.Attrs(func(a slog.Attr) bool { x.attrs[a.Key] = a.Value.String(); return true })
@@ -150,8 +153,10 @@ func main() {
 		{"global failing, route override ok", bad, rok, false},
 	}
 	behs := behaviours()
-	for ci, cfg := range cfgs {
-		cap := &capture{}
+	mins := []slog.Level{slog.LevelDebug - 4, slog.LevelInfo, slog.LevelWarn, slog.LevelError}
+	for ci0 := 0; ci0 < len(cfgs)*len(mins); ci0++ {
+		ci, cfg := ci0%len(cfgs), cfgs[ci0%len(cfgs)]
+		cap := &capture{min: mins[ci0/len(cfgs)]}
 		var opts []fox.GlobalOption
 		opts = append(opts, fox.WithMiddleware(fox.LoggerWithHandler(cap)))
 		if cfg.global != nil {
@@ -193,10 +198,108 @@ func main() {
 		}
 	}
 	panics(run)
+	concurrent(run)
+}
+
+type ccapture struct {
+	mu   sync.Mutex
+	recs []rec
+}
+
+func (c *ccapture) Enabled(context.Context, slog.Level) bool { return true }
+func (c *ccapture) Handle(_ context.Context, r slog.Record) error {
+	x := rec{level: r.Level, msg: r.Message, attrs: map[string]string{}}
+	r.Attrs(func(a slog.Attr) bool { x.attrs[a.Key] = a.Value.String(); return true })
+	c.mu.Lock()
+	c.recs = append(c.recs, x)
+	c.mu.Unlock()
+	return nil
+}
+func (c *ccapture) WithAttrs([]slog.Attr) slog.Handler { return c }
+func (c *ccapture) WithGroup(string) slog.Handler      { return c }
+
+type hdrResolver struct{}
+
+func (hdrResolver) ClientIP(c fox.Context) (*net.IPAddr, error) {
+	runtime.Gosched() // resolvers may be slow: other requests get to run in between
+	ip := net.ParseIP(c.Header("X-IP"))
+	if ip == nil {
+		return nil, errors.New("no ip")
+	}
+	return &net.IPAddr{IP: ip}, nil
+}
+
+// concurrent: every record describes ONE request. Requests that overlap in time each encode an id in their path,
+// status, host, client IP and Location; every record emitted must be consistent with the single request its path
+// names, and every request must have produced exactly one record.
+func concurrent(run *kit.Run) {
+	cap := &ccapture{}
+	f, err := fox.New(fox.WithMiddleware(fox.LoggerWithHandler(cap)), fox.WithClientIPResolver(hdrResolver{}))
+	if err != nil {
+		run.Inconclusive("fox.New: %v", err)
+		return
+	}
+	statusOf := func(id int) int { return []int{200, 201, 204, 301, 302, 307, 400, 404, 418, 500, 503}[id%11] }
+	f.MustHandle("GET", "/c/{id}", func(c fox.Context) {
+		id, _ := strconv.Atoi(c.Param("id"))
+		st := statusOf(id)
+		if st >= 300 && st < 400 {
+			c.SetHeader("Location", fmt.Sprintf("/loc/%d", id))
+		}
+		c.Writer().WriteHeader(st)
+		runtime.Gosched()
+	})
+	workers := 4 * runtime.GOMAXPROCS(0)
+	per := run.Pick(300, 3000)
+	var wg sync.WaitGroup
+	for g := 0; g < workers; g++ {
+		wg.Add(1)
+		go func(g int) {
+			defer wg.Done()
+			for i := 0; i < per; i++ {
+				id := g*per + i
+				req := &http.Request{Method: "GET", Host: fmt.Sprintf("h%d.test", id), URL: &url.URL{Path: fmt.Sprintf("/c/%d", id)},
+					Header: http.Header{"X-Ip": {fmt.Sprintf("10.%d.%d.%d", (id>>16)&255, (id>>8)&255, id&255)}}, RemoteAddr: "192.0.2.1:9", Proto: "HTTP/1.1", ProtoMajor: 1, ProtoMinor: 1}
+				f.ServeHTTP(&under{h: http.Header{}}, req)
+			}
+		}(g)
+	}
+	wg.Wait()
+	total := workers * per
+	seen := make(map[int]int, total)
+	for _, r := range cap.recs {
+		id, err := strconv.Atoi(strings.TrimPrefix(r.attrs["path"], "/c/"))
+		if err != nil {
+			run.Violate("concurrent-record|path", fmt.Sprintf("a record carries path %q, no request had it", r.attrs["path"]), nil)
+			continue
+		}
+		seen[id]++
+		st := statusOf(id)
+		lvl, _ := levelFor(st)
+		wantLoc := ""
+		if st >= 300 && st < 400 {
+			wantLoc = fmt.Sprintf("/loc/%d", id)
+		}
+		wantIP := fmt.Sprintf("10.%d.%d.%d", (id>>16)&255, (id>>8)&255, id&255)
+		if r.attrs["status"] != fmt.Sprint(st) || r.attrs["host"] != fmt.Sprintf("h%d.test", id) || r.attrs["method"] != "GET" || r.level != lvl || r.msg != wantIP || r.attrs["location"] != wantLoc {
+			run.Violate("concurrent-record|mixed", fmt.Sprintf("with %d requests in flight, the record for path %s mixes values of other requests: level=%s msg=%q attrs=%v; that request has status %d (level %s), host h%d.test, client ip %s, location %q",
+				workers, r.attrs["path"], r.level, r.msg, r.attrs, st, lvl, id, wantIP, wantLoc), nil)
+		}
+	}
+	for id := 0; id < total; id++ {
+		if seen[id] != 1 {
+			run.Violate("concurrent-record|count", fmt.Sprintf("request %d produced %d records (with %d requests in flight)", id, seen[id], workers), nil)
+			break
+		}
+	}
+	run.Case("concurrent-records", true)
+	run.Eval(int64(total))
+	run.Count("concurrent_requests_with_one_consistent_record_each", int64(total))
+	run.Count("concurrent_goroutines", int64(workers))
 }
 
 func one(run *kit.Run, f, plain *fox.Router, cap *capture, cfg resolverCfg, b behaviour, kind, remote, remoteIP string) {
-	id := fmt.Sprintf("%s|%s|%s|%s", cfg.name, b.name, kind, remote)
+	id := fmt.Sprintf("%s|%s|%s|%s|min=%s", cfg.name, b.name, kind, remote, cap.min)
 	run.Case(id, true)
 	method, path := "GET", "/r/42"
 	switch kind {
@@ -239,6 +342,23 @@ func one(run *kit.Run, f, plain *fox.Router, cap *capture, cfg resolverCfg, b be
 	cap.mu.Lock()
 	recs := append([]rec(nil), cap.recs...)
 	cap.mu.Unlock()
+	if cap.min > slog.LevelDebug-4 {
+		// a handler that disables the lower levels: exactly the records at or above its level are emitted
+		st := b.status
+		if kind == "redirect" {
+			st = 301
+		}
+		lvl, specified := levelFor(st)
+		if !specified {
+			return
+		}
+		if want := lvl >= cap.min; want != (len(recs) == 1) || len(recs) > 1 {
+			fail("handler enabled from %s: %d records emitted for a response with status %d (level %s)", cap.min, len(recs), st, lvl)
+		}
+		if len(recs) != 1 {
+			return
+		}
+	}
 	if len(recs) != 1 {
 		fail("%d records emitted for one request", len(recs))
 		return
